@@ -88,7 +88,8 @@ def spline_cases(ctx):
     for fam in S.FAMS:
         for prec in ('f64', 'f32'):
             dt = _dtype(prec)
-            for box in ((-3.0, -1.0, -2.0, -0.5), (-0.7, -0.1, -10.1, -0.3), (2.0, 5.0, 1.0, 1.5), (0.0, 1.0, 0.0, 1.0), (-1e3, 0.0, -1.0, 0.0)):
+            for box in ((-3.0, -1.0, -2.0, -0.5), (-0.7, -0.1, -10.1, -0.3), (2.0, 5.0, 1.0, 1.5), (0.0, 1.0, 0.0, 1.0), (-1e3, 0.0, -1.0, 0.0),
+                        (-100.0, -40.0, -90.0, -35.0), (-4e11, -1e11, -3e11, -2e11), (40.0, 100.0, 35.0, 90.0)):      # far from zero: absolute margins vanish
                 for inverse in (False, True):
                     lo, hi = (box[2], box[3]) if inverse else (box[0], box[1])
                     for b, inside_dir in ((lo, +1), (hi, -1)):
